@@ -405,6 +405,25 @@ def nested_front_end(ctx, cases):
         return (ty,)
     n = 0
     for abbr, cfg, meta in cases:
+        if meta.get('kind') in ('nested:attr-expression', 'nested:attr-expression-repeated'):
+            # C04_attr_expr_nested / _repeated: one node per copy, ONE attribute t of type expression whose value is the payload
+            segs = [tuple(s) for s in meta['segs']]
+            N = meta['N'] if meta['kind'].endswith('repeated') else None
+            n += 1
+            ctx.count_eval()
+            t = text_tree.impl_tree(abbr, None, None)
+
+            def attr(i):
+                return [['t', g.expect_nested_value(segs, i, N) or [], 3, False, False, False]]
+            if N is None:
+                want_t = [['p', None, None, attr(None), False, []]]
+            else:
+                want_t = [['p', None, [N, i - 1, False], attr(i), False, []] for i in range(1, N + 1)]
+            if t[0] != 'ok' or to_lists(t[1]) != want_t:
+                bad = 'abbreviation tree %r, the statement gives %r' % (t, want_t)
+                ctx.property_failure('C04nested:%s' % abbr, 'C04 front end on %r: %s' % (abbr, bad),
+                                     {'component': 'C04-nested', 'abbr': abbr, 'segs': meta['segs'], 'N': N, 'attr': True, 'why': bad})
+            continue
         if meta.get('kind') not in ('nested:text', 'nested:text-repeated'):
             continue
         segs = [tuple(s) for s in meta['segs']]
@@ -466,6 +485,8 @@ def replay_nested(rp):
     c = C()
     segs = rp['segs']
     kind = 'nested:text-repeated' if rp.get('N') else 'nested:text'
+    if rp.get('attr'):
+        kind = 'nested:attr-expression-repeated' if rp.get('N') else 'nested:attr-expression'
     nested_front_end(c, [(rp['abbr'], plain(), {'kind': kind, 'segs': segs, 'N': rp.get('N')})])
     print('front end on %r: %s' % (rp['abbr'], c.violations[0] if c.violations else 'property holds'))
     return 1 if c.violations else 0
